@@ -749,7 +749,7 @@ fn replay(path: &Path, known: &KnownFindings, my_label: &Option<String>, known_d
     };
     if rf.config_label != *my_label {
         eprintln!(
-            "HARNESS ERROR: replay file {} was recorded by configuration {:?} but this simulator binary is configuration {:?} (use ./check C20 --replay, which routes by the file name)",
+            "HARNESS ERROR: replay file {} was recorded by configuration {:?} but this simulator binary is configuration {:?} (use ./check C20 --replay, which routes by the configuration label stored in the file)",
             path.display(),
             rf.config_label.as_deref().unwrap_or("primary"),
             my_label.as_deref().unwrap_or("primary")
@@ -1073,6 +1073,7 @@ fn write_evidence(
                 "seam_events": st.steps
             },
             "runs_per_hour": runs_per_hour,
+            "runs_per_hour_note": "primary configuration's batch only (wall_s likewise): builds and the secondary configurations are not included; lattice and sweep 'runs' hold hundreds to thousands of cases each",
             "build_configurations": {
                 "primary": "twofloat with default features (std, math_funcs) + serde: everything reported in this file outside this key",
                 "secondary": other_configurations
@@ -1118,7 +1119,8 @@ fn write_evidence(
                 ],
                 "oracles": [
                     "hand-written sequential model of struct decoding + reference predicate hi + lo == hi",
-                    "serde derive on an equivalent struct fed the identical stream (model cross-check; JSON oracle)",
+                    "serde derive on an equivalent struct fed the identical stream (model cross-check; standard reader of the JSON/TOML oracle family)",
+                    "oracle family for real-format records: RefStrict (f64-typed words only), RefLenient (any numeric or numeric-string word, scalars, drained extra elements, no fields hint), RefNoHint; disagreement = unspecified",
                     "std f64 formatting/parsing for numerals"
                 ]
             },
@@ -1127,7 +1129,8 @@ fn write_evidence(
         "assumptions": [
             "host f64 addition is IEEE-754 round-to-nearest-even (self-checked at start-up on tie cases)",
             "std f64 Display/LowerExp/UpperExp and str::parse::<f64> define the reference numerals (the property is stated in those terms; round trip self-checked)",
-            "serde_json with float_roundtrip reads and writes f64 bit-exactly (self-checked on every JSON write leg)",
+            "serde_json with float_roundtrip reads and writes f64 bit-exactly (self-checked on every JSON write leg; a failure is exit 2)",
+            "the toml crate reads and writes finite f64 bit-exactly (self-checked per value; on failure the TOML round trip of that value is skipped and counted, not reported)",
             if layout_is_hi_lo() { "TwoFloat is #[repr(C)] {hi, lo} (checked at start-up): values under test are built by bit copy so that construction does not depend on code under test" } else { "TwoFloat's layout is not {hi, lo}: values under test were built through the crate's own TryFrom (fallback)" },
             "a clean batch is evidence over the sampled runs, not a proof over all 2^128 pairs"
         ],
